@@ -726,6 +726,11 @@ def stream_ops(run, m, F, E):
             if re.match(r'^ST::string::set\((?:char|wchar_t|char16_t|char32_t) const\*, unsigned long, ST::utf_validation_t\)', d):
                 st.ev('set', inst, list(args))
                 return [(st, None)]
+            if mi and d.startswith('ST::string::') and args and isinstance(args[0], PtrV) and args[0].obj == s_obj and \
+                    not d.rstrip().endswith('const') and not d.startswith('ST::string::~'):
+                # any other non-const member applied to the string being extracted into
+                st.ev('mutate', inst, d.split('(')[0])
+                return [(st, None)]
             return None
         I = Interp(m, F, E, SinkHooks(m, extra))
         st = State()
@@ -767,6 +772,12 @@ def stream_ops(run, m, F, E):
                     und.append('the basic_string inserted is not the one built from the buffer')
             else:
                 ex, se = ev('extract'), ev('set')
+                sidx = max([k for k, e in enumerate(s2.events) if e[0] == 'set'] or [-1])
+                mu = [e for e in s2.events[sidx + 1:] if e[0] == 'mutate'] if sidx >= 0 else []
+                if mu:
+                    probs.append('after storing the token the string is changed again by %s (line %d): what the caller gets is no longer the token a '
+                                 'basic_string extraction yields' % (mu[0][2], mu[0][1].line))
+                    continue
                 if len(ex) != 1 or len(se) != 1:
                     und.append('not of the form stream >> basic_string / set(c_str(), size()) (%d/%d)' % (len(ex), len(se)))
                     continue
@@ -801,6 +812,49 @@ def stream_ops(run, m, F, E):
             und.append('no returning path explored')
         run.ob('R17.4', short(f.dem, 100), False if probs else (None if und else True), probs[0] if probs else (und[0] if und else
                ('inserts basic_string(b.data(), b.size()) of to_buffer(b)' if mo else 'set(token.c_str(), token.size(), default validation)')), loc=fn_loc(f))
+    return n
+
+
+CSTR_SINKS = set('fputs puts fprintf printf vfprintf vprintf dprintf fputws fwprintf wprintf sprintf snprintf strlen strcpy strcat strdup'.split())
+
+
+def counted_chunks(run, m, F):
+    """R17.8: append(data, size) is a counted chunk - the driver hands over literal text and argument bytes with their length, NULs
+    included.  No writer passes the data pointer of the call to something that takes a NUL-terminated string (fputs, a printf-family
+    call - "%.*s" stops at the first NUL as well -, strlen, or a library function that measures the parameter): the sink would get the
+    bytes up to the first NUL only, while the other sinks get all of them.  Expected count: zero; witness: the chunk {x, 0, y}."""
+    from .common import cstring_params, measured_at_call, pointer_roots
+    cs = cstring_params(m, F)
+    n = 0
+    for name in F.lib:
+        f = m.func(name)
+        mt = WRITER_RE.match(f.dem)
+        if not mt or mt.group(3) != 'append':
+            continue
+        n += 1
+        bad = []
+        # the member itself and the library helpers it hands the pointer on to
+        work, seen = [(f, 1)], set()
+        while work:
+            g, pi = work.pop()
+            if (g.name, pi) in seen:
+                continue
+            seen.add((g.name, pi))
+            for (i, ts, k) in F.calls.get(g.name, ()):
+                for t in ts:
+                    for ai, a in enumerate(i.a):
+                        if not (isinstance(a, list) and a and a[0] == 'v'):
+                            continue
+                        if ('param', pi) not in pointer_roots(m, g, a):
+                            continue
+                        base = t.split('@')[0]
+                        if base in CSTR_SINKS or (t in cs and ai in cs[t] and measured_at_call(m, t, ai, i)):
+                            bad.append('hands the data pointer of the call to %s (line %d), which reads a NUL-terminated string: a chunk with an embedded NUL - '
+                                       'e.g. {x, 0, y}, size 3 - reaches this sink cut at the NUL while the other sinks receive all of it' %
+                                       (m.dem(t).split('(')[0][:60], i.line))
+                        elif m.has(t) and m.is_lib(m.func(t)) and ai < m.func(t).nargs and m.func(t).params[ai]['ty'].endswith('*'):
+                            work.append((m.func(t), ai))
+        run.ob('R17.8', short(f.dem), not bad, bad[0] if bad else 'the data pointer goes to counted hand-overs only', loc=fn_loc(f), disc='counted chunk')
     return n
 
 
@@ -920,6 +974,7 @@ def check(run):
     run.floor('format entry points', entries(run, m, F, E), 20)
     run.floor('stream operators', stream_ops(run, m, F, E), 8)
     run.floor('string writer histories', writer_result(run, m, F, E), 4)
+    run.floor('append overrides scanned for NUL-terminated hand-overs', counted_chunks(run, m, F), 6)
     for r in ('R17.1', 'R17.2', 'R17.3', 'R17.4'):
         for o in [o for o in run.obs if o['rule'] == r][:2]:
             run.sample(dict(rule=o['rule'], subject=o['subject'], verdict=o['verdict'], detail=o['detail'][:160]))
